@@ -18,7 +18,7 @@ import (
 // A scenario is a script: start requests (optionally held at a gate inside one of their
 // rules), release them, run management operations, take snapshots. Rules are probe rules:
 //   P.Enter(Req.Id, "<rule>")  P.Hold(Req.Id, "<rule>")  P.Do(Req.Id, "<rule>")
-//   [loc = Req.Id  P.Mid(Req.Id,"<rule>")  Req.Out = loc]  P.Exit(Req.Id, "<rule>")  [fail|panic]  return <ver>*1000000 + Req.Id
+//   [loc = P.Do(..)  tmp = P.Pick(loc, P.MidV(Req.Id,"<rule>"))  Req.Out = loc + tmp - Req.Id]  P.Exit(Req.Id, "<rule>")  [fail|panic]  return <ver>*1000000 + Req.Id
 // P is injected through the pool's api map (shared), Req through the request's own data.
 
 type pRule struct {
@@ -35,7 +35,10 @@ func pRuleText(r pRule) string {
 	// the gate sits INSIDE the evaluation of an argument list (HoldV is the second argument of Do): a request held there has
 	// evaluated `Req.Id` already, so anything shared between requests at this call site would hand Do another request's id
 	fmt.Fprintf(&sb, "  P.Enter(Req.Id, \"%s\")\n  loc = P.Do(Req.Id, P.HoldV(Req.Id, \"%s\"))\n", r.Name, r.Name)
-	fmt.Fprintf(&sb, "  P.Mid(Req.Id, \"%s\")\n  Req.Out = loc\n", r.Name)
+	// the second gate sits in an argument list too, AFTER the local has been evaluated as the first argument: the value the call
+	// receives must be this execution's local, whatever other executions of the same rule evaluate meanwhile; Req.Out is loc iff
+	// both the value passed (tmp) and the value read back afterwards (loc) are the request's own
+	fmt.Fprintf(&sb, "  tmp = P.Pick(loc, P.MidV(Req.Id, \"%s\"))\n  Req.Out = loc + tmp - Req.Id\n", r.Name)
 	fmt.Fprintf(&sb, "  P.Exit(Req.Id, \"%s\")\n", r.Name)
 	switch r.Kind {
 	case "fail":
@@ -151,6 +154,13 @@ func (p *probe) Do(req int64, rule string) int64 {
 	}
 	return req
 }
+
+// MidV is Mid as a value, Pick hands its first argument back
+func (p *probe) MidV(req int64, rule string) string {
+	p.Mid(req, rule)
+	return rule
+}
+func (p *probe) Pick(v int64, _ string) int64 { return v }
 
 // HoldV is Hold as a value: usable as an argument, so that the gate is reached in the middle of an argument list.
 func (p *probe) HoldV(req int64, rule string) string {
